@@ -195,7 +195,7 @@ theorem inert_stats_snoc {pj : List PEff} (h : Inert pj) : Inert (pj ++ [PEff.st
     the committed list; and when the failing step belongs to the log phase before the sync (tail
     cut, any write of the four system records) files and handle satisfy the invariant again. -/
 theorem failed_compact {cfg : Cfg} {T : List Tx} {fs : FS} {m : Mem} {cs : List CTx} {c : Nat}
-    (hroll : cfg.walRollback = true) (h : InvOpen T fs m cs c) (ht : TailPre cfg fs m) (hns : NoSplit cfg m fs.pv)
+    (hroll : cfg.walRollback = true) (hcap1 : 1 ≤ cfg.leafCap) (h : InvOpen T fs m cs c) (ht : TailPre cfg fs m) (hns : NoLiveSplit cfg m fs.pv)
     (k : Nat) (hk : k < (ioSteps (compactA cfg m fs.pv fs.wf)).length) :
     (run (compactA cfg m fs.pv fs.wf) (.faultAt k) fs m).err = some .io ∧
     SafeFSL m.proot [T] (run (compactA cfg m fs.pv fs.wf) (.faultAt k) fs m).fs ∧
@@ -213,10 +213,10 @@ theorem failed_compact {cfg : Cfg} {T : List Tx} {fs : FS} {m : Mem} {cs : List 
   have hruns : m.runs ≠ [] := by
     intro h0; rw [h0] at hne'; simp at hne'
   obtain ⟨covered, h1, h2, h3⟩ := h.store.props
-  have pp := pages_post h hns covered h2 h3
+  obtain ⟨lv, hlv, pp⟩ := pages_post hcap1 h hns covered h2 h3
   obtain ⟨hS, _, _⟩ := compactA_steps cfg m fs.pv fs.wf hne' h.mwal pp.nofail
-  have sa := compact_safe h ht hns
-  have hinv := inv_after_pages h pp h1 h2
+  have sa := compact_safe hcap1 h ht hns
+  have hinv := inv_after_pages h hlv pp h1 h2
   -- the program: pages, then the log phase
   generalize hrest : ([memA MemUpd.bumpTxid] ++ ((appendsA cfg (m.ws fs.wf) (manifestRecs m (pagesA cfg m fs.pv).2.2.1
       (pagesA cfg m fs.pv).2.2.2.1 (pagesA cfg m fs.pv).2.2.2.2)).1 ++
@@ -245,7 +245,7 @@ theorem failed_compact {cfg : Cfg} {T : List Tx} {fs : FS} {m : Mem} {cs : List 
     rw [content_onlySetPm _ hon]
     obtain ⟨n, hcg⟩ := allImgsL_pv _ _ _ (pp.safe k)
     rw [h.mroot] at hcg
-    have hst := hcg.storeOK h.store (Nat.le_refl _) rfl h1 h2
+    have hst := hcg.storeOK hlv h.store (Nat.le_refl _) rfl h1 h2
     refine content_of_store hst h.mexts h.mruns ?_ h.mroot h.mptop
     rw [h.msegs]
     apply List.map_congr_left
